@@ -854,6 +854,122 @@ def distribution_probes(ctx, pp):
                                       "us_full": [u1, r, 0.5, 0.5], "ns_full": []})
 
 
+
+# ---------------------------------------------------------------------------- supplementary statistics (thorough tier)
+def published_cdf(model, low, kind, pid, eps, y):
+    """Cumulative distribution of the inelasticity, integrated analytically from the published densities
+    (typed here independently of the source): CTW 2011 eqs. 14-18 per region, GQRS as in icemc."""
+    if model == "GQRS":
+        return 1 - (math.exp(-y ** 0.4) - 1 / math.e) / (1 - 1 / math.e)
+    c1 = ctw_c1(low, kind, pid, eps)
+    if low:
+        pw = 1 - 1 / (2.55 - 0.0949 * eps)
+        return ((y - c1) ** pw - (0.0 - c1) ** pw) / ((1e-3 - c1) ** pw - (0.0 - c1) ** pw)
+    return math.log((y - c1) / (1e-3 - c1)) / math.log((1 - c1) / (1e-3 - c1))
+
+
+def ks_distance(ys, F):
+    ys = sorted(ys)
+    n = len(ys)
+    d = 0.0
+    for i, y in enumerate(ys):
+        f = F(y)
+        d = max(d, abs(f - i / n), abs(f - (i + 1) / n))
+    return d
+
+
+def ks_sample(pp, spec, n, seed):
+    """n values of choose_inelasticity / choose_interaction with uniform variates from a seeded generator."""
+    rs = np.random.RandomState(seed)
+    cls = getattr(pp, MODELS[spec["model"]])
+    with Script([0.5] * 8, [0] * 8):
+        p = pp.Particle(spec["pid"], (0, 0, 0), (0, 0, 1), spec["energy"], interaction_model=model_class(pp, spec["model"], False),
+                        interaction_type=spec.get("kind", "cc"))
+    inter = p.interaction
+    r = rs.random_sample(2 * n)
+    if spec["what"] == "inelasticity" and spec["model"] == "CTW" and spec.get("u1") is not None:
+        r[0::2] = spec["u1"]
+    it = iter(r.tolist())
+    out = []
+    with mock.patch("numpy.random.rand", lambda: next(it)):
+        if spec["what"] == "inelasticity":
+            for _ in range(n):
+                out.append(float(inter.choose_inelasticity()))
+                if spec["model"] == "GQRS":
+                    next(it)
+        else:
+            for _ in range(n):
+                out.append(int(inter.choose_interaction().value))
+                next(it)
+    return out
+
+
+def ks_specs():
+    specs = []
+    for pid in ("nu_mu", "nu_mu_bar"):
+        for kind in ("cc", "nc"):
+            for energy in (1e6, 1e9, 1e12):
+                for u1 in (0.0, 0.999):
+                    specs.append({"what": "inelasticity", "model": "CTW", "pid": pid, "kind": kind, "energy": energy, "u1": u1})
+    for energy in (1e6, 1e9, 1e12):
+        specs.append({"what": "low_fraction", "model": "CTW", "pid": "nu_e", "kind": "cc", "energy": energy})
+    for energy in (1e4, 1e10):
+        specs.append({"what": "inelasticity", "model": "GQRS", "pid": "nu_tau", "kind": "cc", "energy": energy})
+    for model in MODELS:
+        for pid in ("nu_e", "nu_e_bar"):
+            for energy in (1e3, 1e7, 1e12):
+                specs.append({"what": "choice", "model": model, "pid": pid, "energy": energy})
+    return specs
+
+
+def ks_evaluate(pp, spec, n, seed):
+    """Returns (statistic, description) for one specification."""
+    eps = math.log10(spec["energy"])
+    pid = PIDS[spec["pid"]]
+    kind = {"cc": 1, "nc": 2}[spec.get("kind", "cc")]
+    thr = 0.128 * math.sin(-0.197 * (eps - 21.8))
+    if spec["what"] == "inelasticity":
+        ys = ks_sample(pp, spec, n, seed)
+        if spec["model"] == "GQRS":
+            return ks_distance(ys, lambda y: published_cdf("GQRS", False, kind, pid, eps, y)), "KS distance to the GQRS distribution"
+        low = spec["u1"] < thr
+        lo, hi = (0.0, 1e-3) if low else (1e-3, 1.0)
+        if any(not (lo <= y <= hi) for y in ys):
+            return 1.0, "a sample lies outside the %s-y region" % ("low" if low else "high")
+        return (ks_distance(ys, lambda y: published_cdf("CTW", low, kind, pid, eps, y)),
+                "KS distance to the published %s-y distribution (CTW eqs. 14-18)" % ("low" if low else "high"))
+    if spec["what"] == "low_fraction":
+        ys = ks_sample(pp, dict(spec, what="inelasticity", u1=None), n, seed)
+        frac = sum(1 for y in ys if y <= 1e-3) / n
+        return abs(frac - max(thr, 0.0)), "|frequency of the low-y region - 0.128 sin(-0.197 (eps - 21.8))| (frequency %.4f)" % frac
+    ks = ks_sample(pp, spec, n, seed)
+    frac = sum(1 for k in ks if k == 2) / n
+    want = (1 - 0.6865254) if spec["model"] == "GQRS" else 0.252162 + 0.0256 * math.log(eps - 1.76)
+    return abs(frac - want), "|neutral-current frequency - published fraction %.4f| (frequency %.4f)" % (want, frac)
+
+
+def ks_probes(ctx, pp):
+    """Supplementary, thorough tier only.  Dvoretzky-Kiefer-Wolfowitz / Hoeffding: for n i.i.d. uniform
+    variates P(statistic > e) <= 2 exp(-2 n e^2); with T tests and e = sqrt(ln(2 T / 1e-9) / (2 n)) the
+    false-alarm probability of the whole probe is below 1e-9 per run.  Seeds are scripted (VERIF_SEED)."""
+    specs = ks_specs()
+    n = 20000
+    bound = math.sqrt(math.log(2 * len(specs) / 1e-9) / (2 * n))
+    worst = 0.0
+    for k, spec in enumerate(specs):
+        seed = (ctx.seed * 1000003 + k) % (2 ** 32)
+        stat, what = ks_evaluate(pp, spec, n, seed)
+        worst = max(worst, stat)
+        ctx.case(key=("ks", json.dumps(spec, sort_keys=True)), nontrivial=True)
+        if stat > bound:
+            ctx.fail("ks:%s" % json.dumps(spec, sort_keys=True),
+                     "statistical evidence (n=%d seeded draws, false-alarm probability < 1e-9 per run): %s = %.4f exceeds %.4f for %s" % (
+                         n, what, stat, bound, json.dumps(spec)),
+                     {"kind": "ks", "spec": spec, "n": n, "seed": seed, "bound": bound, "statistic": stat})
+    ctx.extra["ks_probe"] = {"tests": len(specs), "n": n, "bound": round(bound, 5), "largest_statistic": round(worst, 5),
+                             "false_alarm_probability_per_run": "< 1e-9 (DKW / Hoeffding, union bound)"}
+
+
 # ---------------------------------------------------------------------------- entry points
 def run(ctx):
     import pyrex.particle as pp
@@ -914,6 +1030,9 @@ def run(ctx):
     probes(ctx, pp, heavy=(not ok) or ctx.thorough or bool(changed))
     distribution_probes(ctx, pp)
     lap("probes")
+    if ctx.thorough:
+        ks_probes(ctx, pp)
+        lap("ks_probes")
 
 
 def replay(ctx, obj):
@@ -937,6 +1056,10 @@ def replay(ctx, obj):
                 break
         print("implementation (fresh draws):", worst)
         return 1
+    if k == "ks":
+        stat, what = ks_evaluate(pp, obj["spec"], obj["n"], obj["seed"])
+        print("implementation: %s = %.5f (bound %.5f)" % (what, stat, obj["bound"]))
+        return 1 if stat > obj["bound"] else 0
     if k == "sigma":
         for kind in ("cc", "nc"):
             cls = pp.NeutrinoInteraction if obj["model"] == "default" else getattr(pp, MODELS[obj["model"]])
